@@ -312,6 +312,211 @@ pub fn verify_function(fi: usize, f: &Function, t: &Tables) -> FnResult {
     FnResult { states, issues, facts }
 }
 
+
+/// Nil-ness of an operand-stack slot in the path-sensitive refinement below.
+#[derive(Clone, Copy, PartialEq, Eq, PartialOrd, Ord, Debug)]
+enum Av {
+    Nil,
+    NonNil,
+    Unk,
+    /// same nil-ness as the slot directly below (a `Duplicate`)
+    SameBelow,
+    /// nil iff the slot directly below is not (a `Duplicate; Not`)
+    NegBelow,
+}
+
+/// Path-sensitive refinement of the definedness rule. The work-list analysis above joins all
+/// control-flow paths; this one enumerates abstract paths with an exact count of defined locals
+/// and the nil-ness of operand-stack slots, and follows a `JumpIf` only in the directions its
+/// condition allows (the compiler's nil short-circuit is `Duplicate; Not; JumpIf`, so the slot that
+/// was tested is known to be nil on the taken edge and non-nil on the other). It returns the pcs
+/// of `Load`/`Reset` instructions that read beyond the defined locals on a path that is feasible
+/// under that correlation, or None when the state budget is exhausted (no refinement available).
+pub fn feasible_undefined_reads(f: &Function, t: &Tables) -> Option<std::collections::BTreeSet<usize>> {
+    use std::collections::BTreeSet;
+    let code = &f.instructions;
+    let len = code.len();
+    let mut bad: BTreeSet<usize> = BTreeSet::new();
+    let mut seen: BTreeSet<(usize, usize, Vec<Av>)> = BTreeSet::new();
+    let mut work: Vec<(usize, usize, Vec<Av>)> = vec![(0, f.captures, vec![Av::Unk])];
+    while let Some((pc, mut nl, mut st)) = work.pop() {
+        if pc >= len {
+            continue;
+        }
+        if !seen.insert((pc, nl, st.clone())) {
+            continue;
+        }
+        if seen.len() > 50_000 {
+            return None;
+        }
+        // a link is meaningful only while it is the top of the stack
+        let unlink_top = |st: &mut Vec<Av>| {
+            if let Some(top) = st.last_mut()
+                && matches!(top, Av::SameBelow | Av::NegBelow)
+            {
+                *top = Av::Unk;
+            }
+        };
+        macro_rules! pop {
+            () => {
+                match st.pop() {
+                    Some(v) => v,
+                    None => continue, // underflow: reported by the work-list analysis
+                }
+            };
+        }
+        let mut next: Vec<usize> = vec![pc + 1];
+        match code[pc] {
+            Instruction::Constant(_) | Instruction::Builtin(_) | Instruction::Self_ | Instruction::Process(_, _) => {
+                unlink_top(&mut st);
+                st.push(Av::NonNil);
+            }
+            Instruction::Pop => {
+                pop!();
+            }
+            Instruction::Duplicate => {
+                let top = match st.last() {
+                    Some(v) => *v,
+                    None => continue,
+                };
+                st.push(match top {
+                    Av::Nil => Av::Nil,
+                    Av::NonNil => Av::NonNil,
+                    _ => Av::SameBelow,
+                });
+            }
+            Instruction::Not => {
+                let v = pop!();
+                st.push(match v {
+                    Av::Nil => Av::NonNil,
+                    Av::NonNil => Av::Nil,
+                    Av::SameBelow => Av::NegBelow,
+                    Av::NegBelow => Av::SameBelow,
+                    Av::Unk => Av::Unk,
+                });
+            }
+            Instruction::Pick(n) => {
+                let v = if n < st.len() { st[st.len() - 1 - n] } else { continue };
+                unlink_top(&mut st);
+                st.push(if matches!(v, Av::Nil | Av::NonNil) { v } else { Av::Unk });
+            }
+            Instruction::Rotate(n) => {
+                if n > st.len() {
+                    continue;
+                }
+                let from = st.len() - n;
+                for v in st[from..].iter_mut() {
+                    if matches!(v, Av::SameBelow | Av::NegBelow) {
+                        *v = Av::Unk;
+                    }
+                }
+                if n > 0 {
+                    let item = st.remove(from);
+                    st.push(item);
+                }
+            }
+            Instruction::Reset(i) => {
+                if i > nl {
+                    bad.insert(pc);
+                }
+                nl = i;
+            }
+            Instruction::Load(i) => {
+                if i >= nl {
+                    bad.insert(pc);
+                }
+                unlink_top(&mut st);
+                st.push(Av::Unk);
+            }
+            Instruction::Store => {
+                pop!();
+                nl += 1;
+            }
+            Instruction::Tuple(id) => {
+                let Some(info) = t.tuples.get(id) else { continue };
+                for _ in 0..info.fields.len() {
+                    pop!();
+                }
+                unlink_top(&mut st);
+                st.push(if info.fields.is_empty() && info.name.is_none() { Av::Nil } else { Av::NonNil });
+            }
+            Instruction::Get(_) | Instruction::IsType(_) | Instruction::Select => {
+                pop!();
+                unlink_top(&mut st);
+                st.push(Av::Unk);
+            }
+            Instruction::Jump(off) => {
+                let target = pc as i64 + off as i64 + 1;
+                next.clear();
+                if target >= 0 && target <= len as i64 {
+                    next.push(target as usize);
+                }
+            }
+            Instruction::JumpIf(off) => {
+                let c = pop!();
+                let target = pc as i64 + off as i64 + 1;
+                let target = if target >= 0 && target <= len as i64 { Some(target as usize) } else { None };
+                next.clear();
+                // (successor, nil-ness the tested slot below gets on that edge)
+                let mut edges: Vec<(usize, Option<Av>)> = Vec::new();
+                let (taken, fall) = match c {
+                    Av::Nil => (None, Some(None)),
+                    Av::NonNil => (Some(None), None),
+                    Av::Unk => (Some(None), Some(None)),
+                    Av::NegBelow => (Some(Some(Av::Nil)), Some(Some(Av::NonNil))),
+                    Av::SameBelow => (Some(Some(Av::NonNil)), Some(Some(Av::Nil))),
+                };
+                if let (Some(k), Some(tg)) = (taken, target) {
+                    edges.push((tg, k));
+                }
+                if let Some(k) = fall {
+                    edges.push((pc + 1, k));
+                }
+                for (succ, know) in edges {
+                    let mut s2 = st.clone();
+                    if let (Some(k), Some(top)) = (know, s2.last_mut()) {
+                        // a contradiction with what is already known makes the edge infeasible
+                        if (*top == Av::Nil && k == Av::NonNil) || (*top == Av::NonNil && k == Av::Nil) {
+                            continue;
+                        }
+                        *top = k;
+                    }
+                    work.push((succ, nl, s2));
+                }
+                continue;
+            }
+            Instruction::Call | Instruction::Spawn | Instruction::Send => {
+                pop!();
+                pop!();
+                unlink_top(&mut st);
+                st.push(Av::Unk);
+            }
+            Instruction::TailCall(_) => {
+                next.clear();
+            }
+            Instruction::Function(fx) => {
+                let Some(callee) = t.functions.get(fx) else { continue };
+                for _ in 0..callee.captures {
+                    pop!();
+                }
+                unlink_top(&mut st);
+                st.push(Av::NonNil);
+            }
+            Instruction::Equal(n) => {
+                for _ in 0..n {
+                    pop!();
+                }
+                unlink_top(&mut st);
+                st.push(Av::Unk);
+            }
+        }
+        for s in next {
+            work.push((s, nl, st.clone()));
+        }
+    }
+    Some(bad)
+}
+
 /// Cross-reference checks over the tables themselves.
 pub fn verify_tables(t: &Tables, builtins: &[quiver_core::types::BuiltinInfo]) -> Vec<Issue> {
     let mut issues = Vec::new();
@@ -383,7 +588,18 @@ pub fn verify_bytecode(b: &Bytecode) -> ProgramResult {
     let mut facts = Vec::new();
     let mut states = Vec::new();
     for (i, f) in b.functions.iter().enumerate() {
-        let r = verify_function(i, f, &t);
+        let mut r = verify_function(i, f, &t);
+        // A definedness issue of the all-paths analysis that no path feasible under nil-test
+        // correlation exhibits gets its own kind (see `feasible_undefined_reads`).
+        if r.issues.iter().any(|x| x.kind == "load-undefined-local" || x.kind == "reset-beyond-locals")
+            && let Some(feasible) = feasible_undefined_reads(f, &t)
+        {
+            for x in r.issues.iter_mut() {
+                if (x.kind == "load-undefined-local" || x.kind == "reset-beyond-locals") && !feasible.contains(&x.pc) {
+                    x.kind = "undefined-local-on-infeasible-path";
+                }
+            }
+        }
         issues.extend(r.issues);
         facts.push(r.facts);
         states.push(r.states);
